@@ -293,6 +293,69 @@ static void cmd_read(char* t) {
     free(vals); free(defs); free(reps);
 }
 
+/* drain: read_batch(k) repeatedly until it returns <= 0 or nothing remains; report everything delivered */
+static void cmd_drain(char* t) {
+    if (!g_col) { fputs(" D=nocol", stdout); return; }
+    recheck_last();
+    int64_t k = atoll(field(t, 1));
+    if (k < 1) k = 1;
+    size_t vs = value_size(g_col_type, g_col_tlen);
+    int64_t delivered = 0; int err = 0, calls = 0;
+    size_t dcap = 256, dlen = 0; char* defs = (char*)malloc(dcap);
+    printf(" D=");
+    /* values are printed call by call (dense per call) after the header fields, so buffer them */
+    size_t ocap = 1 << 12, olen = 0; char* out = (char*)malloc(ocap);
+    FILE* real = stdout; (void)real;
+    while (calls < 100000) {
+        void* vals = malloc(vs * (size_t)k);
+        int16_t* dl = (int16_t*)malloc(sizeof(int16_t) * (size_t)k);
+        int16_t* rl = (int16_t*)malloc(sizeof(int16_t) * (size_t)k);
+        int64_t n = carquet_column_read_batch(g_col, vals, k, dl, rl);
+        calls++;
+        if (n < 0) { err = 1; free(vals); free(dl); free(rl); break; }
+        if (n == 0) { free(vals); free(dl); free(rl); break; }
+        int64_t nn = 0;
+        for (int64_t i = 0; i < n; i++) {
+            if (dlen + 2 > dcap) { dcap *= 2; defs = (char*)realloc(defs, dcap); }
+            defs[dlen++] = (char)('0' + (dl[i] & 15));
+            if (dl[i] == g_col_maxdef) nn++;
+        }
+        /* serialise the nn dense values into `out` as hex via a memstream */
+        char* mbuf = NULL; size_t mlen = 0; FILE* ms = open_memstream(&mbuf, &mlen);
+        FILE* saved = stdout; stdout = ms; dump_values(vals, g_col_type, g_col_tlen, nn); fflush(ms); stdout = saved; fclose(ms);
+        if (!(mlen == 1 && mbuf[0] == '-')) {
+            if (olen + mlen + 1 > ocap) { while (olen + mlen + 1 > ocap) ocap *= 2; out = (char*)realloc(out, ocap); }
+            memcpy(out + olen, mbuf, mlen); olen += mlen;
+        }
+        free(mbuf);
+        delivered += n;
+        free(vals); free(dl); free(rl);
+        if (carquet_column_remaining(g_col) <= 0) break;
+    }
+    defs[dlen] = 0; out[olen] = 0;
+    printf("%lld:%d:%s:%s:%d:%lld", (long long)delivered, err, dlen ? defs : "-", olen ? out : "-", calls,
+           (long long)carquet_column_remaining(g_col));
+    free(defs); free(out);
+}
+
+/* J:<dst>:<src>:<pos>:<xormaskhex>  copy src to dst with bytes XORed from pos */
+static void cmd_damage(char* t) {
+    FILE* f = fopen(field(t, 2), "rb");
+    if (!f) { fputs(" J=nosrc", stdout); return; }
+    fseek(f, 0, SEEK_END); long n = ftell(f); fseek(f, 0, SEEK_SET);
+    uint8_t* b = (uint8_t*)malloc(n > 0 ? (size_t)n : 1);
+    if (n > 0 && fread(b, 1, (size_t)n, f) != (size_t)n) { fclose(f); free(b); fputs(" J=readerr", stdout); return; }
+    fclose(f);
+    long pos = atol(field(t, 3));
+    size_t ml; uint8_t* m = vh_unhex(field(t, 4), &ml);
+    for (size_t i = 0; i < ml; i++) if (pos + (long)i >= 0 && pos + (long)i < n) b[pos + (long)i] ^= m[i];
+    free(m);
+    f = fopen(field(t, 1), "wb");
+    if (!f) { free(b); fputs(" J=nodst", stdout); return; }
+    fwrite(b, 1, (size_t)n, f); fclose(f); free(b);
+    fputs(" J=ok", stdout);
+}
+
 static void cmd_skip(char* t) {
     if (!g_col) { fputs(" P=nocol", stdout); return; }
     recheck_last();
@@ -439,6 +502,8 @@ int main(void) {
                 case 'K': cmd_get_column(t); break;
                 case 'R': cmd_read(t); break;
                 case 'P': cmd_skip(t); break;
+                case 'D': cmd_drain(t); break;
+                case 'J': cmd_damage(t); break;
                 case 'Q': if (g_col) printf(" Q=%d:%lld", (int)carquet_column_has_next(g_col), (long long)carquet_column_remaining(g_col)); else fputs(" Q=nocol", stdout); break;
                 case 'X': recheck_last(); if (g_col) { carquet_column_reader_free(g_col); g_col = NULL; } fputs(" X=ok", stdout); break;
                 case 'T': cmd_batch_create(t); break;
